@@ -12,6 +12,9 @@ local calls by summary (fixpoint over the reachable call graph), caller-supplied
              rewrite_toc_footer (which syncs) succeeded: rewrite_toc_footer -> record_checkpoint -> persist_header -> sync_all.
 Reviewed exemption (by callee, not by site): EmbeddedWal::write_zero_header (end-of-log sentinel; re-established by
 every open; losing it cannot lose an fsynced record because records are validated by their own checksum).
+  MPT-C03e  an acknowledged put that had to grow the embedded WAL moved every committed byte: before it returns, the
+            growth path has rewritten the TOC with the adjusted offsets, persisted the header and synced (shared with
+            C02's growth protocol rule).
 Not decided: torn writes, directory-entry durability inside atomic-write-file, whether the file still opens."""
 from . import lib, effects
 from .effects import CLEAN, UNSYNCED
@@ -32,6 +35,13 @@ COMMIT_ORDER = ['Memvid::commit_from_records', 'Memvid::commit_skip_indexes_inne
 
 
 def run(ctx):
+    from . import c02
+    ctx.rule('MPT-C03e', 'WAL growth (data shifted in place for an acknowledged put): adjusted TOC rewritten, header persisted and synced before Ok')
+    for _k in ('Memvid::grow_wal_region', 'Memvid::ensure_wal_capacity'):
+        _g = ctx.need('MPT-C03e', _k)
+        if _g is not None:
+            ctx.touch(_g, len(_g.blocks))
+            c02.growth_protocol(ctx, ctx.facts(), _g, 'MPT-C03e')
     ctx.rule('SYNC-C03a', 'write_record ends clean except on the skip_sync edge; skip_sync protocol (set only via set_skip_sync from begin/end_batch; end_batch flushes first)')
     ctx.rule('SYNC-C03b', 'clean at the staging rename; copy_from ends clean')
     ctx.rule('SYNC-C03c', 'every acknowledging function returns Ok only in the clean state (write => unsynced, sync => clean, calls by summary)')
